@@ -190,4 +190,195 @@ theorem migrate_books {s s' : State} {gas : Option Nat} {hold : Denom → Option
       rcases updateBalances_cases h2 with ⟨_, rfl⟩ | ⟨_, _, _, _, rfl⟩ <;> rfl
     exact ⟨by rw [(e4 s3).2, e3.2, e2, e1.2], Or.inr ⟨rfl, s1, s2, e1.1, e1.2, h2, by rw [(e4 s3).1, e3.1]⟩⟩
 
+/-! ## Storage well-formedness and its preservation -/
+
+/-- The channel-state map as the storage engine keeps it: distinct keys, and every key belongs to a
+channel of `CHANNEL_INFO` (`increase_channel_balance` is only reached after the channel lookup of
+`execute_transfer`; all other writers overwrite existing keys). -/
+def WellFormed (s : State) : Prop :=
+  AMap.NodupKeys s.chan ∧ ∀ k ∈ AMap.keys s.chan, k.1 ∈ s.channels
+
+theorem wellFormed_of_keys {s s' : State} (h : WellFormed s) (hk : AMap.keys s'.chan = AMap.keys s.chan)
+    (hc : ∀ c ∈ s.channels, c ∈ s'.channels) : WellFormed s' := by
+  obtain ⟨h1, h2⟩ := h
+  refine ⟨?_, ?_⟩
+  · unfold AMap.NodupKeys at *; rw [hk]; exact h1
+  · intro k hkm; rw [hk] at hkm; exact hc _ (h2 k hkm)
+
+theorem wellFormed_set {s s' : State} (h : WellFormed s) (k : Key) (v : ChanState)
+    (hk : k ∈ AMap.keys s.chan ∨ k.1 ∈ s.channels) (hc : s'.chan = s.chan.set k v)
+    (hch : ∀ c ∈ s.channels, c ∈ s'.channels) : WellFormed s' := by
+  obtain ⟨h1, h2⟩ := h
+  refine ⟨by rw [hc]; exact AMap.nodup_set h1, ?_⟩
+  intro x hx
+  rw [hc] at hx
+  rcases AMap.mem_keys_set.mp hx with hx | rfl
+  · exact hch _ (h2 x hx)
+  · rcases hk with hk | hk
+    · exact hch _ (h2 x hk)
+    · exact hch _ hk
+
+theorem wellFormed_increase {s s' : State} {ch : ChanMap} {c : String} {d : Denom} {amt : Nat} (h : WellFormed s)
+    (hinc : increaseBalance s.chan c d amt = .ok ch) (hmem : c ∈ s.channels) (hc : s'.chan = ch)
+    (hch : s'.channels = s.channels) : WellFormed s' := by
+  simp [increaseBalance] at hinc
+  obtain ⟨_, _, rfl⟩ := hinc
+  exact wellFormed_set h (c, d) _ (Or.inr hmem) hc (by intro x hx; rw [hch]; exact hx)
+
+theorem wellFormed_reduce {s s' : State} {ch : ChanMap} {c : String} {d : Denom} {amt : Nat} (h : WellFormed s)
+    (hred : reduceBalance s.chan c d amt = .ok ch) (hc : s'.chan = ch) (hch : s'.channels = s.channels) :
+    WellFormed s' := by
+  obtain ⟨cs, hg, _, rfl, _, _⟩ := reduceBalance_spec hred
+  exact wellFormed_set h (c, d) _ (Or.inl (mem_keys_of_get? hg)) hc (by intro x hx; rw [hch]; exact hx)
+
+theorem updateBalances_keys {s s' : State} {hold : Denom → Option Nat} (hnd : AMap.NodupKeys s.chan)
+    (h : updateBalances s hold = .ok s') : AMap.keys s'.chan = AMap.keys s.chan ∧ s'.channels = s.channels := by
+  rcases updateBalances_cases h with ⟨_, rfl⟩ | ⟨ch, m, hch, hm, rfl⟩
+  · exact ⟨rfl, rfl⟩
+  · exact ⟨(updateDenoms_get? ch hold s.chan s.chan m hm hnd (fun e he => get?_of_mem_nodup hnd he)).2.2, rfl⟩
+
+theorem migrate_wellFormed {s s' : State} {gas : Option Nat} {hold : Denom → Option Nat} (hwf : WellFormed s)
+    (h : migrate s gas hold = .ok s') : WellFormed s' := by
+  obtain ⟨hch, hb⟩ := migrate_books h
+  apply wellFormed_of_keys hwf _ (by intro c hc; rw [hch]; exact hc)
+  rcases hb with ⟨_, e⟩ | ⟨_, s1, s2, e1, _, hu, e2⟩
+  · rw [e]
+  · have := (updateBalances_keys (by rw [e1]; exact hwf.1) hu).1
+    rw [e2, this, e1]
+
+/-- Every successful transaction keeps the storage well-formed. -/
+theorem exec_wellFormed {w w' : World} {blk : Block} {op : Op} {o : Outcome}
+    (hwf : WellFormed w.st) (h : w.exec blk op = .ok (w', o)) : WellFormed w'.st := by
+  cases op with
+  | connect id v cv ord =>
+    simp [World.exec, ibcChannelConnect] at h
+    obtain ⟨s, ⟨_, _, rfl⟩, rfl, rfl⟩ := h
+    refine wellFormed_of_keys (s := w.st) hwf rfl ?_
+    intro c hc
+    dsimp only
+    split
+    · exact hc
+    · exact List.mem_append_left _ hc
+  | allow snd c gg =>
+    simp only [World.exec] at h
+    simp at h
+    obtain ⟨s, hs, rfl, rfl⟩ := h
+    simp [execAllow] at hs
+    obtain ⟨_, _, _, rfl⟩ := hs
+    exact hwf
+  | updateAdmin snd a =>
+    simp only [World.exec] at h
+    simp at h
+    obtain ⟨s, hs, rfl, rfl⟩ := h
+    simp [execUpdateAdmin] at hs
+    obtain ⟨_, _, rfl⟩ := hs
+    exact hwf
+  | migrate gg => exact migrate_wellFormed hwf (exec_migrate_frame h).1
+  | transferNative snd funds msg =>
+    obtain ⟨d, amt, w1, s, out, _, _, _, hs, rfl, rfl⟩ := exec_transferNative_spec h
+    obtain ⟨ch, hinc, rfl, _, _, hmem, _⟩ := execTransfer_spec hs
+    exact wellFormed_increase hwf hinc hmem rfl rfl
+  | sendCw20 snd token amt msg =>
+    obtain ⟨w1, m, s, out, _, _, _, _, hs, rfl, rfl⟩ := exec_sendCw20_spec h
+    obtain ⟨ch, hinc, rfl, _, _, hmem, _⟩ := execTransfer_spec hs
+    exact wellFormed_increase hwf hinc hmem rfl rfl
+  | hook snd funds sender amt msg =>
+    obtain ⟨m, s, out, _, _, hs, rfl, rfl⟩ := exec_hook_spec h
+    obtain ⟨ch, hinc, rfl, _, _, hmem, _⟩ := execTransfer_spec hs
+    exact wellFormed_increase hwf hinc hmem rfl rfl
+  | recv p rv tv f =>
+    rcases exec_recv_cases h with ⟨_, rfl, _, _⟩ | ⟨s1, sub, hd, _, hc⟩
+    · exact hwf
+    · obtain ⟨amt, d, ch, _, _, hred, rfl, _⟩ := doReceive_spec hd
+      rcases hc with ⟨hp, _⟩ | ⟨_, _, ra, ch2, hra, hundo, rfl⟩
+      · rw [(payout_frame hp).1]
+        exact wellFormed_reduce hwf hred rfl rfl
+      · simp at hra; subst hra
+        have := undoReduce_reduce_eq hred hundo
+        subst this
+        exact hwf
+  | ack chan data ackOk sv tv f =>
+    rcases exec_ack_cases h with ⟨_, rfl, _, _⟩ | ⟨_, s1, sub, hf, _, hc⟩
+    · exact hwf
+    · obtain ⟨p, ch, rfl, hred, rfl, _⟩ := onPacketFailure_spec hf
+      rcases hc with ⟨hp, _⟩ | ⟨_, rfl, _⟩
+      · rw [(payout_frame hp).1]; exact wellFormed_reduce hwf hred rfl rfl
+      · exact wellFormed_reduce hwf hred rfl rfl
+  | timeout chan data sv tv f =>
+    obtain ⟨s1, sub, hf, _, hc⟩ := exec_timeout_cases h
+    obtain ⟨p, ch, rfl, hred, rfl, _⟩ := onPacketFailure_spec hf
+    rcases hc with ⟨hp, _⟩ | ⟨_, rfl, _⟩
+    · rw [(payout_frame hp).1]; exact wellFormed_reduce hwf hred rfl rfl
+    · exact wellFormed_reduce hwf hred rfl rfl
+
+theorem step_wellFormed {w : World} (blk : Block) (op : Op) (hwf : WellFormed w.st) : WellFormed (w.step blk op).st := by
+  unfold World.step
+  split
+  · rename_i w' o h; exact exec_wellFormed hwf h
+  · exact hwf
+
+/-- A freshly instantiated contract is well-formed. -/
+theorem instantiate_wellFormed {m : InstMsg} {s : State} (h : instantiate m = .ok s) : WellFormed s := by
+  simp [instantiate] at h
+  obtain ⟨_, allow, _, rfl⟩ := h
+  exact ⟨by simp [AMap.NodupKeys, AMap.keys], by intro k hk; simp [AMap.keys] at hk⟩
+
+/-! ## One channel: the sum over channels is the entry of that channel -/
+
+theorem sumDenom_single {m : ChanMap} {ch : String} (hnd : AMap.NodupKeys m) (hk : ∀ k ∈ AMap.keys m, k.1 = ch)
+    (d : Denom) : sumDenom m d = outAt m (ch, d) := by
+  induction m with
+  | nil => simp [sumDenom, outAt]
+  | cons e rest ih =>
+    obtain ⟨⟨c, d'⟩, cs⟩ := e
+    simp only [AMap.NodupKeys, AMap.keys, List.map_cons, List.nodup_cons] at hnd
+    have hc : c = ch := hk (c, d') (by simp [AMap.keys])
+    subst hc
+    have ih' := ih hnd.2 (fun k hkm => hk k (by simp [AMap.keys] at hkm ⊢; right; exact hkm))
+    by_cases hd : d' = d
+    · subst hd
+      have h0 : outAt rest (c, d') = 0 := outAt_of_not_mem_keys hnd.1
+      simp [sumDenom, outAt, AMap.get?] at ih' h0 ⊢
+      omega
+    · have hne : ¬ ((c, d') = (c, d)) := by intro e; cases e; exact hd rfl
+      have e1 : outAt (((c, d'), cs) :: rest) (c, d) = outAt rest (c, d) := by simp [outAt, AMap.get?, hne]
+      rw [e1, ← ih']; simp [sumDenom, hd]
+
+theorem sumDenom_no_channels {s : State} (hwf : WellFormed s) (h0 : s.channels = []) (d : Denom) :
+    sumDenom s.chan d = 0 := by
+  have : s.chan = [] := by
+    cases hm : s.chan with
+    | nil => rfl
+    | cons e rest =>
+      have := hwf.2 e.1 (by rw [hm]; simp [AMap.keys])
+      rw [h0] at this; cases this
+  rw [this]; rfl
+
+/-- After `v2::update_balances` on a well-formed one-channel contract, the sum over channels of the
+outstanding balance of a denomination is the real balance when the channel has an entry for it and zero
+otherwise. -/
+theorem updateBalances_sum {s s' : State} {hold : Denom → Option Nat} {ch : String}
+    (hch : s.channels = [ch]) (hwf : WellFormed s) (h : updateBalances s hold = .ok s') (d : Denom) :
+    (∀ cs, s.chan.get? (ch, d) = some cs → ∃ bal, hold d = some bal ∧ cs.outstanding ≤ bal ∧
+        sumDenom s'.chan d = bal ∧ outAt s'.chan (ch, d) = bal ∧
+        totAt s'.chan (ch, d) = cs.totalSent + (bal - cs.outstanding)) ∧
+    (s.chan.get? (ch, d) = none → sumDenom s'.chan d = 0) := by
+  obtain ⟨r1, r2, r3, _⟩ := updateBalances_full hch hwf.1 h
+  have hk' : ∀ k ∈ AMap.keys s'.chan, k.1 = ch := by
+    intro k hk; rw [r3] at hk
+    have := hwf.2 k hk; rw [hch] at this; simpa using this
+  have hnd' : AMap.NodupKeys s'.chan := by unfold AMap.NodupKeys; rw [r3]; exact hwf.1
+  have hsum := sumDenom_single hnd' hk' d
+  constructor
+  · intro cs hg
+    obtain ⟨bal, hb, hle, hget⟩ := r1 d cs hg
+    refine ⟨bal, hb, hle, ?_, ?_, ?_⟩
+    · rw [hsum]; simp [outAt, hget]
+    · simp [outAt, hget]
+    · simp [totAt, hget]
+  · intro hn
+    rw [hsum]
+    apply outAt_of_not_mem_keys
+    rw [r3]; exact AMap.get?_eq_none_iff.mp hn
+
 end CwPlus.Ics20
